@@ -51,8 +51,11 @@ def main():
     try:
         # the agent's demo refers to its own worktree path: rewrite to ours
         os.makedirs(os.path.join(wt, "_seed"), exist_ok=True)
-        text = open(demo, encoding="utf-8").read().replace(a.agent_wt.rstrip("/"), wt)
-        open(os.path.join(wt, "_seed", "demo.py"), "w", encoding="utf-8").write(text)
+        for name in os.listdir(seed_dir):   # the demo may come with helper modules
+            srcp = os.path.join(seed_dir, name)
+            if os.path.isfile(srcp) and name.endswith((".py", ".json")):
+                text = open(srcp, encoding="utf-8").read().replace(a.agent_wt.rstrip("/"), wt)
+                open(os.path.join(wt, "_seed", name), "w", encoding="utf-8").write(text)
         env = {**os.environ, "PYTHONDONTWRITEBYTECODE": "1"}
         d0 = sh([PY, "-B", "_seed/demo.py"], cwd=wt, env=env, timeout=1800)
         meta["demo_exit_without_change"] = d0.returncode
@@ -88,7 +91,10 @@ def main():
             dst = os.path.join(HERE, "seeded", a.keep)
             os.makedirs(dst, exist_ok=True)
             shutil.copy(patch, os.path.join(dst, "patch.diff"))
-            open(os.path.join(dst, "demo.py"), "w", encoding="utf-8").write(open(demo, encoding="utf-8").read().replace(a.agent_wt.rstrip("/"), "/tmp/seed-worktree"))
+            for name in os.listdir(seed_dir):
+                srcp = os.path.join(seed_dir, name)
+                if os.path.isfile(srcp) and name.endswith((".py", ".json")):
+                    open(os.path.join(dst, name), "w", encoding="utf-8").write(open(srcp, encoding="utf-8").read().replace(a.agent_wt.rstrip("/"), "/tmp/seed-worktree"))
             notes = os.path.join(seed_dir, "notes.md")
             if os.path.exists(notes):
                 shutil.copy(notes, os.path.join(dst, "notes.md"))
